@@ -3,6 +3,7 @@ from common import coq_options, coq_string, run_batch, run_driver
 import sink
 
 ID = "C07"
+TABLES = ["vertex_format"]      # leaf tables compared exhaustively through the hooks (coq/Check/Tables.v)
 REQUIRES = ["Agree", "C07Spec", "C07Premise", "Truth"]
 THEOREM_REQUIRES = ["C07"]
 THEOREMS = ["C07_holds", "C07_holds_structure", "C07_format_table", "C07_layout_rules", "C07_leaf_layouts"]
